@@ -10,8 +10,6 @@ Definition indz (b : bool) : Z := if b then 1 else 0.
 
 Fixpoint pairwise {A} (r : A -> A -> bool) (l : list A) : bool :=
   match l with [] => true | x :: t => forallb (r x) t && pairwise r t end.
-Fixpoint nodupE (l : list edge) : bool :=
-  match l with [] => true | x :: r => negb (memE x r) && nodupE r end.
 
 Section Checkers.
   Variable V : list node.
